@@ -52,6 +52,10 @@ def hostile(shard, rnd):
             if x[1] == 'field:flag-word':
                 yield x
     if shard.get('i', 0) == 0:
+        for x in faults.long_flag_runs(rnd):
+            yield x
+        for x in faults.huge_size_headers(rnd):
+            yield x
         for x in faults.short_payloads(rnd):
             yield x
         for x in faults.template_key_fault_frames(rnd):
